@@ -83,7 +83,7 @@ func vfDlgNameAddr(uri string, tag string, v int, side int, rnd func(int) int) (
 		sb.WriteString(uri)
 		if decor && isSip {
 			// uri-parameters, URI headers, both, or headers only
-			up := []string{";transport=tcp", ";lr", ";user=phone;lr", ";x=%41", "", ""}[rnd(6)]
+			up := []string{";transport=tcp", ";lr", ";user=phone;lr", ";x=%41", "", "", ";transport=tls", ";lr;transport=TLS"}[rnd(8)]
 			sb.WriteString(up)
 			if up == "" || rnd(2) == 0 {
 				sb.WriteString([]string{"?subject=a&h=b", "?Subject=x"}[rnd(2)])
